@@ -18,6 +18,11 @@ def cases(tier, seed):
     n = 200 if tier == "quick" else 3000
     for i in range(n):
         r = common.case_rng(seed, PID, i)
+        if i < 6:
+            # directed: a file the package wrote, with ONE of the three header attributes the detector requires removed
+            yield {"kind": "foreign", "spec": "version", "major": 1, "minor": 0, "release": None,
+                   "drop": ["emd_group_type", "version_major", "version_minor"][i % 3], "tree": gen.gen_tree(r, maxdepth=2)}
+            continue
         c = r.random()
         if c < 0.6:
             ng = r.choice([1, 1, 2, 3, 4])
